@@ -6,16 +6,33 @@
 
 package utils
 
+// The bit readers are verified in bit-vector mode (exact Go semantics for
+// shifts, masks and wrap-around).  bit(buff, p) is bit p of the buffer counted
+// from the most significant bit of byte 0; bitof(x, s) is bit s of x counted
+// from the least significant bit.  The "exports" clauses are what int-mode
+// callers see; they are justified by the bridge lemmas (govc/bridge.go).
+
 //@ func GetBitsAsUint64
 //@ mode bv
 //@ requires len <= 64
-//@ requires[C07] len == 0 || pos+len <= 8*size(buff)
+//@ requires[C07] pos <= 1<<62 && (len == 0 || pos+len <= 8*size(buff))
+//@ ensures[C14] forall(k, 0, 64, k < len ==> bitof(result, len-1-k) == bit(buff, pos+k))
+//@ ensures[C14] len == 64 || result>>len == 0
 //@ exports result == bits(buff, pos, len)
 //@ exports 0 <= result && result < pow2(len)
+//@ loop 1
+//@ split i-pos in 0..64
+//@ invariant pos <= i && i-pos <= len
+//@ invariant forall(k, 0, 64, k < i-pos ==> bitof(result, i-pos-1-k) == bit(buff, pos+k))
+//@ invariant i-pos == 64 || result>>(i-pos) == 0
+//@ decreases pos+len-i
 
 //@ func GetBitsAsInt64
 //@ mode bv
 //@ requires 2 <= len && len <= 64
-//@ requires[C07] pos+len <= 8*size(buff)
+//@ split len in 2..64
+//@ requires[C07] pos <= 1<<62 && pos+len <= 8*size(buff)
+//@ ensures[C14] forall(k, 0, 64, k < len ==> bitof(result, len-1-k) == bit(buff, pos+k))
+//@ ensures[C14] forall(k, 0, 64, k >= len ==> bitof(result, k) == bit(buff, pos))
 //@ exports result == sbits(buff, pos, len)
 //@ exports 0-pow2(len-1) <= result && result < pow2(len-1)
